@@ -25,7 +25,13 @@ KINDS = ["entry", "entry-imports-lib", "entry-imports-local-lib", "entry-imports
 def gen_project(r):
     """-> (files: rel -> text, buildable: [rel], roles: rel -> kind)"""
     n = r.randint(2, 6)
-    files = {"lib/shared.ucg": "let traceid = TRACE \"shared\";\nlet val = 7;\nlet mk = func (x) => {v = x, s = \"s\"};\n",
+    files = {"lib/shared.ucg": ("let traceid = TRACE \"shared\";\nlet val = 7;\nlet mk = func (x) => {v = x, s = \"s\"};\n"
+                                # a relative import of its own: lib/defaults.ucg, whoever imports this library and from wherever
+                                "let d = import \"defaults.ucg\";\nlet port1 = d.port + 1;\n"),
+             "lib/defaults.ucg": "let port = 8080;\n",
+             # files of the same name next to the importers, with other types: never the ones the library means
+             "defaults.ucg": "let port = \"8080\";\n",
+             "sub/defaults.ucg": "let port = 9090;\n",
              "lib/data.txt": "payload",
              # a DIFFERENT library under the same relative name one directory down: same import string, other file, other types
              "sub/lib/shared.ucg": "let traceid = TRACE \"sub-shared\";\nlet val = \"seven\";\nlet mk = func (x, y) => [x, y];\nlet only_sub = true;\n",
@@ -49,7 +55,7 @@ def gen_project(r):
         elif kind == "entry-yaml":
             text = "let v = [%d, \"x\"];\nout yaml {v = v};\n" % i
         elif kind == "entry-imports-lib":
-            text = "let l = import \"%slib/shared.ucg\";\nout json {v = l.val + %d, t = l.mk(%d)};\n" % (up, i, i)
+            text = "let l = import \"%slib/shared.ucg\";\nlet p2 = l.port1 + 1;\nout json {v = l.val + %d, t = l.mk(%d), p = p2, d = l.d.port + 0};\n" % (up, i, i)
         elif kind == "entry-imports-local-lib":
             # resolved against the importing file: lib/shared.ucg for a file in the root, sub/lib/shared.ucg for a file in sub
             text = ("let l = import \"lib/shared.ucg\";\nlet s = include str \"lib/data.txt\";\n"
@@ -255,7 +261,7 @@ def task(args):
                 allnames = sorted(k for k in files if k.endswith(".ucg"))
                 alone_all = alone_outcomes(tp, files, allnames)
                 res.case((json.dumps(files, sort_keys=True), "-r"), nontrivial=True)
-                judge_batch(tp, files, allnames, dict(roles, **{"lib/shared.ucg": "lib-no-out", "sub/lib/shared.ucg": "lib-no-out"}), allnames, alone_all, res, argv_extra=["-r", "."])
+                judge_batch(tp, files, allnames, dict(roles, **{"lib/shared.ucg": "lib-no-out", "sub/lib/shared.ucg": "lib-no-out", "lib/defaults.ucg": "lib-no-out", "defaults.ucg": "lib-no-out", "sub/defaults.ucg": "lib-no-out"}), allnames, alone_all, res, argv_extra=["-r", "."])
         if c < 1 and idx < 2:
             res.sample({"files": files, "roles": roles})
     return res
